@@ -1,4 +1,5 @@
 import OdcGeo.Model.C07
+import OdcGeo.Model.Affine
 import OdcGeo.Drv.C01
 namespace OdcGeo.C07.Drv
 open OdcGeo OdcGeo.IO OdcGeo.C07
@@ -170,6 +171,55 @@ def run (args : List String) : Option String :=
       else match toCrs envRat fakeProj (fun _ => autoV) ⟨src, g⟩ dst res with
         | .error e => pure (fmtErrKind e)
         | .ok g' => pure (C01.Drv.fmtTag g'.crs ++ " " ++ geomStr g'.geom)
+  | "clip" :: tol :: toks => do
+    let tol ← parseRat? tol
+    let (g, rest) ← parseGeom 64 toks
+    if rest ≠ [] then none else pure (geomStr (clipLon180 (180 : Rat) tol g))
+  | "tocrsfull" :: src :: dst :: geo :: wd :: eps :: res :: toks => do
+    -- `chop` = identity: the harness only sends geometries that do not meet the projected antimeridian
+    let src ← C01.Drv.parseTag? src; let dst ← C01.Drv.parseTag? dst
+    let geo ← parseBool? geo; let wd ← parseBool? wd; let eps ← parseRat? eps
+    let (res, autoV) ← parseRes? res
+    let (g, rest) ← parseGeom 64 toks
+    if rest ≠ [] then none
+    else
+      let r? : Option Rat := match res with
+        | .val r => some r | .auto => some autoV | _ => none
+      let irr := match r? with
+        | some r => decide (0 < r) && !(ringsAllRational r g)
+        | none => false
+      if irr then pure "IRRATIONAL"
+      else match toCrsFull envRat fakeProj (fun _ => autoV) (fun x => .ok x) (180 : Rat) eps ⟨src, g⟩ dst geo res wd with
+        | .error e => pure (fmtErrKind e)
+        | .ok g' => pure (C01.Drv.fmtTag g'.crs ++ " " ++ geomStr g'.geom)
+  | "transform" :: aff :: arg :: tag :: toks => do
+    let A ← parseAff? aff
+    let tag ← C01.Drv.parseTag? tag
+    let arg ← (if arg = "U" then some CrsArg.unset else (C01.Drv.parseTag? arg).map CrsArg.set)
+    let (g, rest) ← parseGeom 64 toks
+    if rest ≠ [] then none
+    else
+      let f : Pt Rat → Pt Rat := fun p => let q := A.apply (p.x, p.y); ⟨q.1, q.2⟩
+      let r := transformGeom f arg ⟨tag, g⟩
+      pure (C01.Drv.fmtTag r.crs ++ " " ++ geomStr r.geom)
+  | ["sides", cs] => do
+    let cs ← parseList? parsePt? cs
+    pure (fmtList (fun (e : Pt Rat × Pt Rat) => s!"{fmtPt e.1}>{fmtPt e.2}") (sides cs))
+  | ["bboxtocrs", src, dst, res, l, b, r, t] => do
+    let src ← C01.Drv.parseTag? src; let dst ← C01.Drv.parseTag? dst
+    let (res, autoV) ← parseRes? res
+    let l ← parseRat? l; let b ← parseRat? b; let r ← parseRat? r; let t ← parseRat? t
+    let r? : Option Rat := match res with
+      | .val r => some r | .auto => some autoV | _ => none
+    let irr := match r? with
+      | some rr => decide (0 < rr) && !(allRational rr (boxRing l b r t))
+      | none => false
+    if irr then pure "IRRATIONAL"
+    else match bboxToCrs envRat fakeProj (fun _ => autoV) src l b r t dst res with
+      | .error e => pure (fmtErrKind e)
+      | .ok (tag, none) => pure (C01.Drv.fmtTag tag ++ " EMPTY")
+      | .ok (tag, some bb) =>
+        pure (C01.Drv.fmtTag tag ++ s!" {fmtRat bb.1} {fmtRat bb.2.1} {fmtRat bb.2.2.1} {fmtRat bb.2.2.2}")
   | ["harm", pts] => do
     let ps ← parseList? parseCPt? pts
     pure (fmtList (fun (p : Coord Rat × Coord Rat) => s!"{fmtCoord p.1};{fmtCoord p.2}") (ps.map harmonise))
